@@ -1,6 +1,18 @@
 import SaphyrModel.Spec.Positions
 import SaphyrModel.Sc.State
-/-! # C12 — Reported positions are true positions (per-primitive theorems)
+import SaphyrModel.Proofs.SpansRun
+import SaphyrModel.Props.C17
+/-! # C12 — Reported positions are true positions
+
+**Parser half, proved for every token list** (`event_spans_are_token_spans` and its corollaries): the
+parser invents no position. Every span it attaches to an event — through the iterator and through
+the push interface — is the span of one of the tokens it was given or the empty span at the end of
+one of them, and every error it raises itself points at the start of one of those tokens. Hence:
+if the scanner's token marks are true positions, so are all event marks and parser error marks
+(`event_marks_true`), and if token spans start no later than they end, so do event spans
+(`event_spans_ordered`). **Scanner half** (the marks of the tokens are true): per-primitive theorems
+below; the induction over the whole scanner is not complete and rests on the `lineCol` oracle that
+the Lean driver evaluates on every reported mark.
 
 `Spec.lineCol input idx` is the specification: count line breaks and characters up to `idx`.
 Proved: the counting function advances by one column over any non-break character and to the next
@@ -55,6 +67,67 @@ theorem skip_char_keeps_mark_true (input : Str) (s : Sc) (c : Char) (hc : input[
   refine ⟨trivial, ?_⟩
   show lineCol input (s.mark.index + 1) = (s.mark.line, s.mark.col + 1)
   rw [lineCol_succ_char input _ c hc h1 h2, ht]
+
+/-- **The parser invents no position (iterator).** For every token list, latched scanner error,
+    end mark, `keep_tags` setting and fuel: every span delivered by plain iteration is the span of one
+    of the tokens, or the empty span at the end of one of them; an error, if any, points at the start
+    of one of the tokens or is the scanner's own latched error (or "unexpected eof" at its end mark). -/
+theorem event_spans_are_token_spans (toks : List Token) (scanErr : Option ScanError) (eofm : Marker) (keep : Bool)
+    (fuel : Nat) :
+    let r := iterate fuel (Api.init (PState.init toks scanErr eofm keep)) []
+    (∀ v ∈ r.1, Sp.SpanOf toks v.2) ∧ (∀ e, r.2 = some (.err e) → Sp.ErrOf toks scanErr eofm e) :=
+  Sp.iterate_spans toks scanErr eofm keep fuel
+
+/-- … and one step from any state that only knows tokens of `T` -/
+theorem step_spans_are_token_spans {T : List Token} {se : Option ScanError} {eofm : Marker} {p : PState}
+    (hinv : Sp.SInv T se eofm p) (hne : p.state ≠ .end) : Sp.StepOk T se eofm (parseStep p) :=
+  Sp.parseStep_spans hinv hne
+
+/-- **If the token marks are true positions, so are all event marks.** `ok m` is any predicate on
+    marks (for C12: `Spec.markTrue text m`). -/
+theorem event_marks_true (ok : Marker → Prop) (toks : List Token) (scanErr : Option ScanError) (eofm : Marker)
+    (keep : Bool) (fuel : Nat) (htok : ∀ t ∈ toks, ok t.span.start ∧ ok t.span.stop) :
+    ∀ v ∈ (iterate fuel (Api.init (PState.init toks scanErr eofm keep)) []).1, ok v.2.start ∧ ok v.2.stop := by
+  intro v hv
+  rcases (event_spans_are_token_spans toks scanErr eofm keep fuel).1 v hv with ⟨t, ht, h⟩ | ⟨t, ht, h⟩
+  · rw [h]; exact htok t ht
+  · rw [h]; exact ⟨(htok t ht).2, (htok t ht).2⟩
+
+/-- … and a parser error is reported at a true position as well (the other error it can return is the
+    scanner's own) -/
+theorem parser_error_mark_true (ok : Marker → Prop) (toks : List Token) (scanErr : Option ScanError) (eofm : Marker)
+    (keep : Bool) (fuel : Nat) (htok : ∀ t ∈ toks, ok t.span.start ∧ ok t.span.stop) (e : ScanError)
+    (he : (iterate fuel (Api.init (PState.init toks scanErr eofm keep)) []).2 = some (.err e)) :
+    ok e.mark ∨ e = scanErr.getD ⟨eofm, "unexpected eof"⟩ := by
+  rcases (event_spans_are_token_spans toks scanErr eofm keep fuel).2 e he with ⟨t, ht, h⟩ | h
+  · left; rw [h]; exact (htok t ht).1
+  · right; exact h
+
+/-- **Each span starts no later than it ends** — if that holds of the tokens -/
+theorem event_spans_ordered (toks : List Token) (scanErr : Option ScanError) (eofm : Marker) (keep : Bool) (fuel : Nat)
+    (htok : ∀ t ∈ toks, t.span.start.index ≤ t.span.stop.index) :
+    ∀ v ∈ (iterate fuel (Api.init (PState.init toks scanErr eofm keep)) []).1, v.2.start.index ≤ v.2.stop.index := by
+  intro v hv
+  rcases (event_spans_are_token_spans toks scanErr eofm keep fuel).1 v hv with ⟨t, ht, h⟩ | ⟨t, ht, h⟩
+  · rw [h]; exact htok t ht
+  · rw [h]; exact Nat.le_refl _
+
+/-- the push interface delivers the same spans (C17.push_eq_pull), so it invents none either -/
+theorem push_spans_are_token_spans (toks : List Token) (scanErr : Option ScanError) (eofm : Marker) (keep : Bool)
+    (n : Nat) (hn : 16 * toks.length + 2 ≤ n) (s : Push)
+    (h : load true n ⟨Api.init (PState.init toks scanErr eofm keep), []⟩ = .ok s) :
+    ∀ v ∈ s.out, Sp.SpanOf toks v.2 := by
+  intro v hv
+  have hp := C17.push_eq_pull toks scanErr eofm keep n hn
+  simp only [h] at hp
+  have h0 := hp 0
+  have hs := (event_spans_are_token_spans toks scanErr eofm keep (s.out.length + 1 + 0)).1 v
+  rw [h0] at hs
+  exact hs (by simpa using hv)
+
+/-- non-vacuity: two tokens, both spans are read off them -/
+example : Sp.SpanOf [⟨⟨⟨0, 1, 0⟩, ⟨0, 1, 0⟩⟩, .streamStart⟩, ⟨⟨⟨0, 1, 0⟩, ⟨1, 1, 1⟩⟩, .scalar .plain ['a']⟩] ⟨⟨0, 1, 0⟩, ⟨1, 1, 1⟩⟩ :=
+  Or.inl ⟨⟨⟨⟨0, 1, 0⟩, ⟨1, 1, 1⟩⟩, .scalar .plain ['a']⟩, by simp, rfl⟩
 
 example : lineCol "ab\ncd".toList 4 = (2, 1) := by decide
 example : lineCol "ab\r\ncd".toList 5 = (2, 1) := by decide
